@@ -40,6 +40,9 @@ CLAIMS = {
  "C17": ("trace validation with a differential oracle stated by the spec (TwoHop = Swap1 . Swap2 with in2 = out1): every recorded two-hop (v1, v2; 4 direction combinations; both modes; "
          "limits; thresholds realised +-1; invalid pool pairs) is compared, account by account, with its two single swaps executed on a copy of the bank; failure reasons are forced",
          "transfer-fee intermediate mints are not part of the equality claim (the two-hop moves vault to vault)", "4 C17"),
+ "C18": ("TLC model-checks the position life-cycle state machine (LifecycleModel) and generates behaviours; the harness replays them into the real program and probes every operation in "
+         "every state; TLC validates each recorded instruction against the C18 predicates of the specification evaluated on the logged state (open / close / reset / reposition / lock / "
+         "transfer-locked / bundle bitmap / token supply one / no mint authority / locked untouchable)", "the 256 bundle indexes are covered by seeded sampling across shards, not swept one by one", "4 C18"),
  "C05": ("TLC model checking of LiqSum/TickSums/TickInit on the toy instance + the same invariants evaluated by TLC on the projected state after every "
          "recorded instruction (both tick-array encodings, Pinocchio handlers)", "as C01", "4 C05"),
  "C06": ("TLC model checking of StepsOK/SplitExact action properties on the toy instance + trace validation: per-step fee formula, protocol cut, growth "
